@@ -19,8 +19,9 @@ Definition oracle_case (k : case) : bool :=
           list_eqb Bool.eqb (o_acks o) (expected_acks script false) && o_opts_ok o
       | Single _ script code res t =>
           if 2 <=? Z.of_nat (length (sent_msgs script)) then true else md_eqb t (all_trailers script)
-      | Lts c => match c with Stream.Sched _ _ _ p _ => negb p | Stream.GoChecked _ _ ok => ok end
+      | Lts c => match c with Stream.Sched _ _ _ p _ => negb p | Stream.GoChecked _ _ ok => ok | Stream.Http _ => true end
       | UnaryStatus _ _ _ _ _ _ _ h t => h && t
+      | HLts _ => true
       | StreamStatus _ _ _ _ _ _ _ _ _ _ _ h t => h && t
       | Checked _ _ ok => ok
       end
